@@ -2049,6 +2049,83 @@ def run_repeated_calls_case(ctx, draws, ncalls, style, seeds):
 
 
 # ------------------------------------------------------------------------------------------------
+# part 6: partition specs of bridged variables (logical names + per-variable sharding_rules)
+# ------------------------------------------------------------------------------------------------
+
+
+class PSpecMod(nnx.Module):
+  """spec: tuple of (name, names, rules) — an nnx.Param with logical axis names and per-variable rules."""
+
+  def __init__(self, spec, *, rngs):
+    for i, (name, names, rules) in enumerate(spec):
+      kw = {}
+      if names is not None:
+        kw['sharding'] = names
+      if rules is not None:
+        kw['sharding_rules'] = rules
+      setattr(self, name, nnx.Param(iw((2,) * (len(names) if names is not None else 1), i + 1), **kw))
+
+  def __call__(self, x):
+    return x
+
+
+def gen_pspec(rng):
+  out = []
+  for i in range(rng.randrange(1, 5)):
+    k = rng.random()
+    if k < 0.15:
+      names = None
+    else:
+      names = tuple(rng.choice(['embed', 'mlp', 'heads', None]) for _ in range(rng.randrange(1, 3)))
+    used = [n for n in (names or ()) if n is not None]
+    r = rng.random()
+    if names is None or r < 0.25:
+      rules = None
+    elif r < 0.55:  # full rule list
+      rules = tuple((n, rng.choice(['data', 'model', None])) for n in dict.fromkeys(used))
+    elif r < 0.8:  # partial: some names have no rule, some rules name axes that are not used
+      rules = tuple((n, rng.choice(['data', 'model'])) for n in dict.fromkeys(used) if rng.random() < 0.5) + (('unused', 'data'),)
+    else:
+      rules = ()
+    out.append((f'v{i}', names, rules))
+  return tuple(out)
+
+
+def run_pspec_case(ctx, spec):
+  case = {'kind': 'partition-spec', 'spec': [[n, None if a is None else list(a), None if r is None else [list(e) for e in r]] for n, a, r in spec]}
+  ctx.case(case)
+  for _, names, rules in spec:
+    ctx.count('pspec_rules', 'unannotated' if names is None else ('none' if rules is None else ('empty' if not rules else f'{len(rules)} rules')))
+  with RegistryGuard():
+    lm = bridge.ToLinen(PSpecMod, args=(spec,))
+    r = call(lambda: lm.init(jax.random.key(0), jnp.zeros((1,), jnp.int32)))
+    if r[0] != 'ok':
+      ctx.violation('pspec-init-raises', f'ToLinen init raised {r[1]}', case)
+      return
+    vs = unfreeze(r[1])
+    ref = PSpecMod(spec, rngs=nnx.Rngs(0))
+    want = {p[0]: tuple(v.value) for p, v in nnx.to_flat_state(nnx.get_partition_spec(nnx.state(ref)))}
+    a = call(lambda: nn.get_partition_spec({'params': vs['params']})['params'])
+    if a[0] != 'ok':
+      ctx.violation('pspec-raises', f'nn.get_partition_spec on the ToLinen variables raised {a[1]}', case)
+      return
+    for name, names, rules in spec:
+      got = tuple(a[1][name])
+      if got != want[name]:
+        ctx.violation('pspec-differs' + ('-sharding-rules' if rules else ''), f'{name} (sharding={names}, sharding_rules={rules}): nn.get_partition_spec on the ToLinen variables gives {got}, nnx.get_partition_spec on the wrapped module gives {want[name]}', case)
+        return
+      b = vs['params'][name]
+      if isinstance(b, bv.NNXMeta):
+        d = call(b.get_partition_spec)
+        if d[0] != 'ok' or tuple(d[1]) != want[name]:
+          ctx.violation('pspec-differs' + ('-sharding-rules' if rules else ''), f'{name}: box.get_partition_spec() = {d[1]}, NNX says {want[name]}', case)
+          return
+      if valstr(nn.meta.unbox(b)) != valstr(getattr(ref, name).value):
+        ctx.violation('pspec-value-differs', f'{name}: unboxed value differs from the NNX variable', case)
+        return
+
+
+# ------------------------------------------------------------------------------------------------
 # model comparison of the queued wrapper requests
 # ------------------------------------------------------------------------------------------------
 
@@ -2241,6 +2318,11 @@ def run(ctx):
       ctx.disagreements_checked += 1
       ctx.violation('axis-model-mismatch', f'lifted ToLinen: model {m} vs implementation {want}', acase, concrete=False)
 
+  # part 6
+  for i in range(60 * k):
+    pspec = gen_pspec(rng)
+    guarded(ctx, {'kind': 'partition-spec', 'spec': str(pspec)}, lambda: run_pspec_case(ctx, pspec))
+
   # part 5
   for i in range(40 * k):
     draws = tuple(rng.choice(['dropout', 'noise']) for _ in range(rng.randrange(1, 3)))
@@ -2285,6 +2367,9 @@ def _run_case(ctx, drv, obj):
       guarded(ctx, case, lambda: run_lift_tonnx_case(ctx, aspec, case['axis'], case['n']))
   elif kind == 'tolinen-repeated-calls':
     guarded(ctx, case, lambda: run_repeated_calls_case(ctx, tuple(case['draws']), case['ncalls'], case['style'], case['seeds']))
+  elif kind == 'partition-spec':
+    pspec = tuple((n, None if a is None else tuple(a), None if r is None else tuple(tuple(e) for e in r)) for n, a, r in case['spec'])
+    guarded(ctx, case, lambda: run_pspec_case(ctx, pspec))
   elif kind == 'axis-box':
     check_axis_boxes(ctx, drv)
   elif kind in ('box', 'registry', 'merge') or (kind or '').startswith('tree-'):
